@@ -1620,6 +1620,17 @@ impl StreamingQueueCompressor {
                 // Get the NEW priority (after decrement) for sync tokens
                 let new_priority = *priorities.get(&sample_name).unwrap();
 
+                // C++ AGC has ONE running sample_priority, decremented at pack boundaries as well
+                // as at sample boundaries. Keep the per-sample priorities consistent with that:
+                // a sample that starts later must rank below everything pushed so far, otherwise
+                // its contigs overtake queued earlier contigs and the sync tokens behind them.
+                {
+                    let mut next_p = self.next_priority.lock().unwrap();
+                    if *next_p >= new_priority {
+                        *next_p = new_priority - 1;
+                    }
+                }
+
                 // Drop locks before inserting sync tokens to avoid deadlock
                 drop(priorities);
 
@@ -1639,10 +1650,14 @@ impl StreamingQueueCompressor {
                         sample_name: sample_name.clone(),
                         contig_name: String::from("<SYNC>"),
                         data: Vec::new(),
-                        // Use large priority boost to ensure sync tokens are processed BEFORE any contigs
-                        // With +1, contigs with same priority but higher cost were being popped first
-                        // This caused barrier deadlock when some workers exited before others got sync tokens
-                        sample_priority: new_priority + 1_000_000,
+                        // The tokens close the batch of contigs pushed so far: give them the priority
+                        // those contigs were pushed with (C++ AGC emplaces the tokens BEFORE it
+                        // decrements sample_priority). With cost 0 they are popped after every earlier
+                        // contig and before every later one, whatever the thread timing. (The former
+                        // `new_priority + 1_000_000` overflowed i32 - a panic with overflow checks, a
+                        // wrap to the LOWEST priority without - which made the batch contents, and so
+                        // the archive bytes, depend on scheduling.)
+                        sample_priority: new_priority + 1,
                         cost: 0,
                         sequence,
                         is_sync_token: true,
@@ -1690,7 +1705,9 @@ impl StreamingQueueCompressor {
                                 sample_name: sample_name.clone(),
                                 contig_name: String::from("<SYNC>"),
                                 data: Vec::new(), // Empty data for sync token
-                                sample_priority: sample_priority + 1_000_000, // Much higher priority than any contigs
+                                // priority of the sample that just ended (see PACK_BOUNDARY above;
+                                // `+ 1_000_000` overflowed i32)
+                                sample_priority: sample_priority + 1,
                                 cost: 0, // No cost for sync tokens
                                 sequence,
                                 is_sync_token: true,
